@@ -38,9 +38,9 @@ Fixpoint mask {X} (keep : list bool) (l : list X) : list X :=
   | _, _ => []
   end.
 
-Definition build_status (fixed : list f64) : outcome unit :=
-  if Nat.eqb (n_fixed F fixed) 0 then Ok tt
-  else ring_status (map (slot_count F) (weigh F fixed)).
+(** = the crash status of [route_ring] for every order of the sort
+    (Properties/C04.v: [C04_route_status_is_model]) *)
+Definition build_status (fixed : list f64) : outcome unit := route_status F fixed.
 
 (** every command ends in weighTargets (setWeight: iff something matched); a crash
     there ends the table load.  [strict] = evaluate the crash status of every
